@@ -173,14 +173,17 @@ class Gen:
         return None
 
     # ------------------------------------------------------------------ expressions
-    def expr(self, t, depth=2, need_present=False):
-        """an expression of (generator) type t; returns text.  need_present: for optional t the value must not be nil"""
+    def expr(self, t, depth=2, need_present=False, exact=False):
+        """an expression of (generator) type t; returns text.  need_present: for optional t the value must not be nil.
+        exact: the compiler must see exactly this type, not an alias of it (conditions, loop bounds, indices:
+        `is_boolean` / `is_numeric` do not look through aliases)"""
         r = self.r
         t0 = self.res(t)
         k = t0[0]
         cands = []
-        # variables of exactly this type (alias-insensitive at the top)
-        vs = [v for v in self.vars() if self.res(v.ty) == t0 and (not need_present or k != "opt" or v.never_nil)]
+        self.exact = exact
+        # variables of this type (alias-insensitive at the top unless `exact`)
+        vs = [v for v in self.vars() if (v.ty == t0 if exact else self.res(v.ty) == t0) and (not need_present or k != "opt" or v.never_nil)]
         if vs:
             cands += ["var"] * 3
         if depth <= 0:
@@ -198,6 +201,8 @@ class Gen:
             cands += ["base", "inner", "inner"] + ([] if need_present else ["nil"]) + ["call", "field"]
         elif k in ("open", "mixed", "map", "fn", "class"):
             cands += ["base", "call", "field"]
+        if exact:
+            cands = [c for c in cands if c not in ("call", "field", "index", "mapget", "or", "get")]
         for _ in range(6):
             c = r.choice(cands)
             e = self.try_form(c, t, t0, depth, need_present, vs)
@@ -366,7 +371,9 @@ class Gen:
             if t0 == BYTE:
                 return "%s + %s" % (self.atom(self.lit(BYTE)), self.atom(self.lit(BYTE)))     # stays far below 255
             if t0 in (INT, BIGINT, FLOAT) and r.random() < 0.12:
-                return "-" + self.atom(self.expr(t0, d))
+                nv = [v for v in self.vars() if v.ty == t0]
+                if nv:
+                    return "-" + r.choice(nv).name       # (a negated LITERAL is folded at compile time: C06's subject)
             sym = r.choice(["+", "+", "-", "*", "/", "%"])
             if BYTE in (a, b) and sym == "-":
                 sym = "+"
@@ -513,14 +520,20 @@ class Gen:
 
     def s_reassign(self):
         r = self.r
-        vs = self.vars(lambda v: not v.const and v.assignable and self.res(v.ty)[0] in ("nat", "opt"))
+        vs = self.vars(lambda v: not v.const and v.assignable and (self.res(v.ty)[0] == "nat" or
+                                 (self.res(v.ty)[0] == "opt" and self.res(self.res(v.ty)[1])[0] == "nat")))
         if not vs:
             return self.s_decl()
         v = r.choice(vs)
         e = self.expr(v.ty, 2, need_present=v.never_nil)
         if self.res(v.ty) == STR:
             v.minlen = 0
-        self.emit(("%s = %s" if self.is_local(v) else "modify %s = %s") % (v.name, e))
+        pre = "" if self.is_local(v) else "modify "
+        if e == "nil" or self.res(v.ty)[0] == "opt":
+            # a bare `x = nil` has no type to infer, and `x = 3` would narrow the static type of an `int?` to `int`
+            self.emit("%s%s: %s = %s" % (pre, v.name, ms(v.ty), e))
+        else:
+            self.emit("%s%s = %s" % (pre, v.name, e))
         if r.random() < 0.6:
             self.observe(v.name, "reassigned:" + self.res(v.ty)[0], v.ty)
 
@@ -564,11 +577,11 @@ class Gen:
 
     def s_if(self):
         r = self.r
-        self.emit("if %s {" % self.expr(BOOL, 2))
+        self.emit("if %s {" % self.expr(BOOL, 2, exact=True))
         self.block(r.randint(1, 3))
         k = r.random()
         if k < 0.3:
-            self.emit("} else if %s {" % self.expr(BOOL, 1))
+            self.emit("} else if %s {" % self.expr(BOOL, 1, exact=True))
             self.block(r.randint(1, 2))
             self.emit("} else {")
             self.block(r.randint(1, 2))
@@ -593,7 +606,7 @@ class Gen:
         elif r.random() < 0.3:
             step = " step %s" % {INT: "2", BIGINT: "B2"}[kt]
         if kt == INT and r.random() < 0.3:
-            hi = self.atom(self.expr(INT, 0)) if r.random() < 0.5 else hi
+            hi = self.atom(self.expr(INT, 0, exact=True)) if r.random() < 0.5 else hi
         name = self.fresh("i")
         named = r.random() < 0.7
         self.emit("from %s %s %s%s%s {" % (lo, r.choice(["to", "through"]), hi, step, ", " + name if named else ""))
@@ -628,18 +641,18 @@ class Gen:
         self.emit("}")
 
     def s_break(self):
-        self.emit("if %s {" % self.expr(BOOL, 1))
+        self.emit("if %s {" % self.expr(BOOL, 1, exact=True))
         self.emit("\t" + self.r.choice(["break", "continue"]))
         self.emit("}")
 
     def s_early_return(self):
-        self.emit("if %s {" % self.expr(BOOL, 1))
+        self.emit("if %s {" % self.expr(BOOL, 1, exact=True))
         self.emit("\treturn " + self.expr(self.ret_ty, 1))
         self.emit("}")
 
     def s_listops(self):
         r = self.r
-        ls = self.vars(lambda v: self.res(v.ty)[0] == "open" and not v.const and self.is_local(v))
+        ls = self.vars(lambda v: v.ty[0] == "open" and not v.const and self.is_local(v))
         if not ls:
             return self.s_decl()
         v = r.choice(ls)
@@ -683,18 +696,18 @@ class Gen:
         elif c == "keys":
             self.observe("%s.keys()" % v.name, "map-keys", open_(kt))
             if v.keys:
-                self.observe("%s.keys()[0]" % v.name, "map-key-elem", kt)
+                self.observe("(%s.keys())[0]" % v.name, "map-key-elem", kt)
         elif c == "values":
             self.observe("%s.values()" % v.name, "map-values", open_(vt))
             if v.keys:
-                self.observe("%s.values()[0]" % v.name, "map-value-elem", vt)
+                self.observe("(%s.values())[0]" % v.name, "map-value-elem", vt)
         elif c == "contains" and v.keys:
             self.observe("%s.contains_key(%s)" % (v.name, r.choice(v.keys)), "map-contains", BOOL)
         elif c == "replace" and v.keys and self.res(vt)[0] != "opt":
             self.observe("%s.replace(%s, %s)" % (v.name, r.choice(v.keys), self.expr(vt, 0, need_present=True)), "map-replace", opt(vt))
         elif c == "pairs" and v.keys:
-            self.observe("%s.pairs()[0][0]" % v.name, "map-pair-key", kt)
-            self.observe("%s.pairs()[0][1]" % v.name, "map-pair-value", vt)
+            self.observe("(%s.pairs())[0][0]" % v.name, "map-pair-key", kt)
+            self.observe("(%s.pairs())[0][1]" % v.name, "map-pair-value", vt)
 
     def s_fndecl(self):
         r = self.r
@@ -715,7 +728,7 @@ class Gen:
 
     def s_unwrap(self):
         r = self.r
-        ovs = self.vars(lambda v: self.res(v.ty)[0] == "opt" and self.res(self.res(v.ty)[1])[0] in ("nat", "open", "class"))
+        ovs = self.vars(lambda v: v.ty[0] == "opt" and v.ty[1][0] in ("nat", "open", "class"))
         if not ovs:
             t = opt(r.choice(NATS))
             name = self.fresh()
